@@ -1,11 +1,15 @@
 package props
 
 import (
+	"fmt"
 	"go/ast"
 	"go/token"
 	"go/types"
+	"strings"
 
 	"verif/checker/core"
+	"verif/checker/flow"
+	"verif/checker/ord"
 )
 
 func init() { register("C16", c16) }
@@ -14,7 +18,10 @@ func init() { register("C16", c16) }
 func c16(p *core.Program, r *core.Report) {
 	r.Rule("R1", "high-water mark discipline: <fragment>.maxRowID is a derived value; if any function reads it for anything but its own raise-only update or a stats gauge, then every storage mutation that can create bits must be followed by an assignment to it on every normal path (same flow analysis as C10); with no such reader the bound is taken from storage and cannot go stale")
 	r.Rule("R2", "descending scans terminate: in package pilosa no `for` loop counts an unsigned variable down (`i--`) under a `i >= e` condition unless e is a constant >= 1 (for e == 0 the condition never fails and the counter wraps)")
-	r.NotDecided = "Rows paging, GroupBy iterator wrap-around and merge limits, time-range handling: value/iteration logic"
+	r.Rule("R3", "an exhausted GroupBy iterator stops: in every method of groupByIterator, after a call that can set gbi.done (a method that assigns done, directly or through such a call) the done flag is tested before any rowIterator is advanced again -- otherwise a level whose rows intersect nothing wraps forever once the levels above are exhausted")
+	r.Rule("R4", "previous-row landing test: in newGroupByIterator the condition that switches the deeper fields to 'ignore previous' is evaluated for every ordering of (row the iterator landed on, previous): it must hold exactly when the two differ (the iterator wraps, so it can land below as well as above the previous row)")
+	c16GroupBy(p, r)
+	r.NotDecided = "Rows paging and merge limits, the intersections computed by the GroupBy iterator, time-range handling: value/iteration logic"
 	pk := p.Pkg("")
 	if pk == nil {
 		r.Undecide("R1", "package pilosa", "", "not loaded")
@@ -170,4 +177,190 @@ func assignsField(info *types.Info, body ast.Node, field string) bool {
 		return true
 	})
 	return found
+}
+
+// c16GroupBy: R3 and R4.
+func c16GroupBy(p *core.Program, r *core.Report) {
+	pk := p.Pkg("")
+	info := pk.TypesInfo
+	// methods of groupByIterator (and its constructor) that can set done
+	var methods []*ast.FuncDecl
+	for _, fd := range core.AllFuncDecls(pk) {
+		if fd.Body == nil {
+			continue
+		}
+		if core.RecvName(fd) == "groupByIterator" || fd.Name.Name == "newGroupByIterator" {
+			methods = append(methods, fd)
+		}
+	}
+	if len(methods) < 3 {
+		r.Undecide("R3", "groupByIterator", "", "methods not found")
+		return
+	}
+	isDoneSel := func(e ast.Expr) bool {
+		sel, ok := ast.Unparen(e).(*ast.SelectorExpr)
+		if !ok || sel.Sel.Name != "done" {
+			return false
+		}
+		return core.IsNamed(info.TypeOf(sel.X), core.ModPath, "groupByIterator")
+	}
+	setters := map[types.Object]bool{}
+	for changed := true; changed; {
+		changed = false
+		for _, fd := range methods {
+			o := info.Defs[fd.Name]
+			if setters[o] {
+				continue
+			}
+			sets := false
+			ast.Inspect(fd.Body, func(n ast.Node) bool {
+				switch x := n.(type) {
+				case *ast.AssignStmt:
+					for _, l := range x.Lhs {
+						if isDoneSel(l) {
+							sets = true
+						}
+					}
+				case *ast.CallExpr:
+					if fn := core.CalleeOf(info, x); fn != nil && setters[fn] {
+						sets = true
+					}
+				}
+				return true
+			})
+			if sets {
+				setters[o] = true
+				changed = true
+			}
+		}
+	}
+	for _, fd := range methods {
+		construct := core.FuncName(fd) + " done discipline"
+		const bD flow.State = 1
+		var bad []string
+		nAdv := 0
+		h := flow.Hooks{Info: info}
+		h.Atom = func(n ast.Node, s flow.State) []flow.State {
+			switch x := n.(type) {
+			case *ast.AssignStmt:
+				// assigning done directly is followed by a return in this code; treat as set
+				for _, l := range x.Lhs {
+					if isDoneSel(l) {
+						return []flow.State{s | bD}
+					}
+				}
+			case *ast.CallExpr:
+				fn := core.CalleeOf(info, x)
+				if fn == nil {
+					return []flow.State{s}
+				}
+				if fn.Name() == "Next" && recvNamed(fn, "rowIterator") {
+					nAdv++
+					if s&bD != 0 {
+						bad = append(bad, p.Pos(x.Pos()))
+					}
+				}
+				if setters[fn] {
+					return []flow.State{s | bD}
+				}
+			}
+			return []flow.State{s}
+		}
+		h.Refine = func(cond ast.Expr, taken bool, s flow.State) (flow.State, bool) {
+			c := ast.Unparen(cond)
+			if isDoneSel(c) {
+				if taken {
+					return s | bD, true
+				}
+				return s &^ bD, true
+			}
+			return s, true
+		}
+		it := flow.Run(h, fd.Body, 0)
+		switch {
+		case it.Unsupported != "":
+			r.Undecide("R3", construct, p.Pos(fd.Pos()), it.Unsupported)
+		case len(bad) > 0:
+			r.Violate("R3", construct, p.Pos(fd.Pos()), "a rowIterator is advanced at "+strings.Join(dedupe(bad), ", ")+" on a path where gbi.done may have been set by an earlier call and was not tested since: once the upper levels are exhausted this loop has no exit and the query never returns")
+		default:
+			r.HoldAt("R3", construct, p.Pos(fd.Pos()), fmt.Sprintf("%d iterator advances, none after an untested possible exhaustion", nAdv))
+		}
+	}
+	// ---- R4
+	ctor := core.FuncDecl(pk, "", "newGroupByIterator")
+	if ctor == nil {
+		r.Undecide("R4", "newGroupByIterator landing test", "", "not found")
+		return
+	}
+	var cond ast.Expr
+	ast.Inspect(ctor.Body, func(n ast.Node) bool {
+		is, ok := n.(*ast.IfStmt)
+		if !ok || cond != nil {
+			return true
+		}
+		for _, st := range is.Body.List {
+			if as, ok := st.(*ast.AssignStmt); ok && len(as.Lhs) == 1 && len(as.Rhs) == 1 {
+				if id, ok := as.Lhs[0].(*ast.Ident); ok && id.Name == "ignorePrev" {
+					if v, ok := as.Rhs[0].(*ast.Ident); ok && v.Name == "true" {
+						cond = is.Cond
+					}
+				}
+			}
+		}
+		return true
+	})
+	if cond == nil {
+		r.Violate("R4", "newGroupByIterator landing test", p.Pos(ctor.Pos()), "no condition sets ignorePrev: deeper fields always seek to their previous row, even under a different prefix")
+		return
+	}
+	// integer identifiers of the condition become terms; boolean ones are taken true
+	var terms []string
+	seen := map[string]bool{}
+	ast.Inspect(cond, func(n ast.Node) bool {
+		if id, ok := n.(*ast.Ident); ok {
+			if b, ok := info.TypeOf(id).Underlying().(*types.Basic); ok && b.Info()&types.IsInteger != 0 && !seen[id.Name] {
+				seen[id.Name] = true
+				terms = append(terms, id.Name)
+			}
+		}
+		return true
+	})
+	if len(terms) != 2 {
+		r.Undecide("R4", "newGroupByIterator landing test", p.Pos(cond.Pos()), fmt.Sprintf("expected a comparison of two values, found terms %v", terms))
+		return
+	}
+	bad := ""
+	n := 0
+	for _, o := range ord.Orderings(terms) {
+		in := &ord.Interp{Info: info, O: o,
+			Term: func(e ast.Expr) string {
+				if id, ok := ast.Unparen(e).(*ast.Ident); ok && seen[id.Name] {
+					return id.Name
+				}
+				return ""
+			},
+			CondHook: func(e ast.Expr) (ord.Tri, bool) {
+				if id, ok := ast.Unparen(e).(*ast.Ident); ok {
+					if b, ok := info.TypeOf(id).Underlying().(*types.Basic); ok && b.Kind() == types.Bool {
+						return ord.True, true
+					}
+				}
+				return ord.Unknown, false
+			}}
+		got := in.Cond(cond, nil)
+		if in.Unsupported != "" {
+			r.Undecide("R4", "newGroupByIterator landing test", p.Pos(cond.Pos()), in.Unsupported)
+			return
+		}
+		want := o.Cmp(ord.Lin{Base: terms[0]}, token.NEQ, ord.Lin{Base: terms[1]})
+		n++
+		if got != want && bad == "" {
+			bad = fmt.Sprintf("for the ordering %s the condition `%s` is %v, but the iterator did%s land on the previous row", o, types.ExprString(cond), got == ord.True, map[bool]string{true: " not", false: ""}[want == ord.True])
+		}
+	}
+	if bad != "" {
+		r.Violate("R4", "newGroupByIterator landing test", p.Pos(cond.Pos()), bad+": deeper fields then seek to their own previous row under a different prefix and groups are skipped (or repeated)")
+	} else {
+		r.HoldAt("R4", "newGroupByIterator landing test", p.Pos(cond.Pos()), fmt.Sprintf("%d orderings: ignorePrev is set exactly when the landed row differs from previous", n))
+	}
 }
